@@ -606,5 +606,15 @@ func handleScenarios() []*Scenario {
 		pipe(p, "h:"+p+":pipeline-one-connection", []string{"c1"},
 			th(c("SET", "@k0", "aaaa"), c("SET", "@k1", "bbbbbbbb"), c("MGET", "@k0", "@k1"), c("RPUSH", "@k2", "x", "yy", "zzz"), c("LRANGE", "@k2", "0", "-1")))
 	}
+	// C20: a pipeline that changes the selection at its head, in its middle and at its end, next to a
+	// connection that stays in database 0: every command runs in the database selected by the SELECTs
+	// written before it on its own connection, however the handler groups what the parser hands it
+	pipe2 := func(id string, conns []string, threads ...[][]string) {
+		s = append(s, &Scenario{ID: id, Prop: "C20", Threads: threads, Conns: conns, ViaHandle: true, DBs: 3, Atomic: true, Pipeline: true})
+	}
+	pipe2("h:C20:pipeline-select-first", []string{"c1", "c2"},
+		th(c("SELECT", "1"), c("SET", "@k0", "one"), c("GET", "@k0")), th(c("GET", "@k0"), c("SET", "@k0", "zero")))
+	pipe2("h:C20:pipeline-select-middle-and-last", []string{"c1", "c2"},
+		th(c("SET", "@k0", "zero"), c("SELECT", "2"), c("GET", "@k0"), c("SET", "@k0", "two"), c("SELECT", "0")), th(c("GET", "@k0"), c("SELECT", "2"), c("GET", "@k0")))
 	return s
 }
